@@ -10,51 +10,18 @@ Base/Res.vos Base/Res.vok Base/Res.required_vos: Base/Res.v
 Gen/Consts.vo Gen/Consts.glob Gen/Consts.v.beautified Gen/Consts.required_vo: Gen/Consts.v 
 Gen/Consts.vio: Gen/Consts.v 
 Gen/Consts.vos Gen/Consts.vok Gen/Consts.required_vos: Gen/Consts.v 
-Gen/WriterTab.vo Gen/WriterTab.glob Gen/WriterTab.v.beautified Gen/WriterTab.required_vo: Gen/WriterTab.v 
-Gen/WriterTab.vio: Gen/WriterTab.v 
-Gen/WriterTab.vos Gen/WriterTab.vok Gen/WriterTab.required_vos: Gen/WriterTab.v 
-Model/MsgWriter.vo Model/MsgWriter.glob Model/MsgWriter.v.beautified Model/MsgWriter.required_vo: Model/MsgWriter.v Base/Res.vo Base/Octets.vo Gen/Consts.vo Gen/WriterTab.vo Model/NameWire.vo
-Model/MsgWriter.vio: Model/MsgWriter.v Base/Res.vio Base/Octets.vio Gen/Consts.vio Gen/WriterTab.vio Model/NameWire.vio
-Model/MsgWriter.vos Model/MsgWriter.vok Model/MsgWriter.required_vos: Model/MsgWriter.v Base/Res.vos Base/Octets.vos Gen/Consts.vos Gen/WriterTab.vos Model/NameWire.vos
 Model/NameWire.vo Model/NameWire.glob Model/NameWire.v.beautified Model/NameWire.required_vo: Model/NameWire.v Base/Res.vo Base/Octets.vo Gen/Consts.vo
 Model/NameWire.vio: Model/NameWire.v Base/Res.vio Base/Octets.vio Gen/Consts.vio
 Model/NameWire.vos Model/NameWire.vok Model/NameWire.required_vos: Model/NameWire.v Base/Res.vos Base/Octets.vos Gen/Consts.vos
-Proofs/MsgWriterInvP.vo Proofs/MsgWriterInvP.glob Proofs/MsgWriterInvP.v.beautified Proofs/MsgWriterInvP.required_vo: Proofs/MsgWriterInvP.v Base/ListX.vo Model/MsgWriter.vo Proofs/NameWireP.vo Proofs/MsgWriterP.vo Proofs/MsgWriterScanP.vo Proofs/MsgWriterNameP.vo
-Proofs/MsgWriterInvP.vio: Proofs/MsgWriterInvP.v Base/ListX.vio Model/MsgWriter.vio Proofs/NameWireP.vio Proofs/MsgWriterP.vio Proofs/MsgWriterScanP.vio Proofs/MsgWriterNameP.vio
-Proofs/MsgWriterInvP.vos Proofs/MsgWriterInvP.vok Proofs/MsgWriterInvP.required_vos: Proofs/MsgWriterInvP.v Base/ListX.vos Model/MsgWriter.vos Proofs/NameWireP.vos Proofs/MsgWriterP.vos Proofs/MsgWriterScanP.vos Proofs/MsgWriterNameP.vos
-Proofs/MsgWriterNameP.vo Proofs/MsgWriterNameP.glob Proofs/MsgWriterNameP.v.beautified Proofs/MsgWriterNameP.required_vo: Proofs/MsgWriterNameP.v Base/ListX.vo Model/MsgWriter.vo Proofs/NameWireP.vo Proofs/MsgWriterP.vo Proofs/MsgWriterScanP.vo
-Proofs/MsgWriterNameP.vio: Proofs/MsgWriterNameP.v Base/ListX.vio Model/MsgWriter.vio Proofs/NameWireP.vio Proofs/MsgWriterP.vio Proofs/MsgWriterScanP.vio
-Proofs/MsgWriterNameP.vos Proofs/MsgWriterNameP.vok Proofs/MsgWriterNameP.required_vos: Proofs/MsgWriterNameP.v Base/ListX.vos Model/MsgWriter.vos Proofs/NameWireP.vos Proofs/MsgWriterP.vos Proofs/MsgWriterScanP.vos
-Proofs/MsgWriterP.vo Proofs/MsgWriterP.glob Proofs/MsgWriterP.v.beautified Proofs/MsgWriterP.required_vo: Proofs/MsgWriterP.v Base/ListX.vo Model/MsgWriter.vo Proofs/NameWireP.vo
-Proofs/MsgWriterP.vio: Proofs/MsgWriterP.v Base/ListX.vio Model/MsgWriter.vio Proofs/NameWireP.vio
-Proofs/MsgWriterP.vos Proofs/MsgWriterP.vok Proofs/MsgWriterP.required_vos: Proofs/MsgWriterP.v Base/ListX.vos Model/MsgWriter.vos Proofs/NameWireP.vos
-Proofs/MsgWriterScanP.vo Proofs/MsgWriterScanP.glob Proofs/MsgWriterScanP.v.beautified Proofs/MsgWriterScanP.required_vo: Proofs/MsgWriterScanP.v Base/ListX.vo Model/MsgWriter.vo Proofs/NameWireP.vo Proofs/MsgWriterP.vo
-Proofs/MsgWriterScanP.vio: Proofs/MsgWriterScanP.v Base/ListX.vio Model/MsgWriter.vio Proofs/NameWireP.vio Proofs/MsgWriterP.vio
-Proofs/MsgWriterScanP.vos Proofs/MsgWriterScanP.vok Proofs/MsgWriterScanP.required_vos: Proofs/MsgWriterScanP.v Base/ListX.vos Model/MsgWriter.vos Proofs/NameWireP.vos Proofs/MsgWriterP.vos
-Proofs/MsgWriterTabP.vo Proofs/MsgWriterTabP.glob Proofs/MsgWriterTabP.v.beautified Proofs/MsgWriterTabP.required_vo: Proofs/MsgWriterTabP.v Base/ListX.vo Model/MsgWriter.vo
-Proofs/MsgWriterTabP.vio: Proofs/MsgWriterTabP.v Base/ListX.vio Model/MsgWriter.vio
-Proofs/MsgWriterTabP.vos Proofs/MsgWriterTabP.vok Proofs/MsgWriterTabP.required_vos: Proofs/MsgWriterTabP.v Base/ListX.vos Model/MsgWriter.vos
-Proofs/MsgWriterTopP.vo Proofs/MsgWriterTopP.glob Proofs/MsgWriterTopP.v.beautified Proofs/MsgWriterTopP.required_vo: Proofs/MsgWriterTopP.v Base/ListX.vo Model/MsgWriter.vo Proofs/MsgWriterP.vo Proofs/MsgWriterScanP.vo Proofs/MsgWriterNameP.vo Proofs/MsgWriterInvP.vo
-Proofs/MsgWriterTopP.vio: Proofs/MsgWriterTopP.v Base/ListX.vio Model/MsgWriter.vio Proofs/MsgWriterP.vio Proofs/MsgWriterScanP.vio Proofs/MsgWriterNameP.vio Proofs/MsgWriterInvP.vio
-Proofs/MsgWriterTopP.vos Proofs/MsgWriterTopP.vok Proofs/MsgWriterTopP.required_vos: Proofs/MsgWriterTopP.v Base/ListX.vos Model/MsgWriter.vos Proofs/MsgWriterP.vos Proofs/MsgWriterScanP.vos Proofs/MsgWriterNameP.vos Proofs/MsgWriterInvP.vos
 Proofs/NameWireP.vo Proofs/NameWireP.glob Proofs/NameWireP.v.beautified Proofs/NameWireP.required_vo: Proofs/NameWireP.v Base/ListX.vo Model/NameWire.vo Spec/NameWireS.vo Spec/NameRepr.vo
 Proofs/NameWireP.vio: Proofs/NameWireP.v Base/ListX.vio Model/NameWire.vio Spec/NameWireS.vio Spec/NameRepr.vio
 Proofs/NameWireP.vos Proofs/NameWireP.vok Proofs/NameWireP.required_vos: Proofs/NameWireP.v Base/ListX.vos Model/NameWire.vos Spec/NameWireS.vos Spec/NameRepr.vos
 Proofs/NameWireSP.vo Proofs/NameWireSP.glob Proofs/NameWireSP.v.beautified Proofs/NameWireSP.required_vo: Proofs/NameWireSP.v Base/ListX.vo Spec/NameWireS.vo
 Proofs/NameWireSP.vio: Proofs/NameWireSP.v Base/ListX.vio Spec/NameWireS.vio
 Proofs/NameWireSP.vos Proofs/NameWireSP.vok Proofs/NameWireSP.required_vos: Proofs/NameWireSP.v Base/ListX.vos Spec/NameWireS.vos
-Props/C12.vo Props/C12.glob Props/C12.v.beautified Props/C12.required_vo: Props/C12.v Spec/MsgWriterS.vo Base/ListX.vo Model/MsgWriter.vo Proofs/MsgWriterP.vo Proofs/MsgWriterScanP.vo Proofs/MsgWriterNameP.vo Proofs/MsgWriterInvP.vo Proofs/MsgWriterTopP.vo
-Props/C12.vio: Props/C12.v Spec/MsgWriterS.vio Base/ListX.vio Model/MsgWriter.vio Proofs/MsgWriterP.vio Proofs/MsgWriterScanP.vio Proofs/MsgWriterNameP.vio Proofs/MsgWriterInvP.vio Proofs/MsgWriterTopP.vio
-Props/C12.vos Props/C12.vok Props/C12.required_vos: Props/C12.v Spec/MsgWriterS.vos Base/ListX.vos Model/MsgWriter.vos Proofs/MsgWriterP.vos Proofs/MsgWriterScanP.vos Proofs/MsgWriterNameP.vos Proofs/MsgWriterInvP.vos Proofs/MsgWriterTopP.vos
-Props/C13.vo Props/C13.glob Props/C13.v.beautified Props/C13.required_vo: Props/C13.v Spec/MsgWriterS.vo Base/ListX.vo Model/MsgWriter.vo Proofs/MsgWriterP.vo Proofs/MsgWriterScanP.vo Proofs/MsgWriterNameP.vo Proofs/MsgWriterTabP.vo Proofs/MsgWriterTopP.vo
-Props/C13.vio: Props/C13.v Spec/MsgWriterS.vio Base/ListX.vio Model/MsgWriter.vio Proofs/MsgWriterP.vio Proofs/MsgWriterScanP.vio Proofs/MsgWriterNameP.vio Proofs/MsgWriterTabP.vio Proofs/MsgWriterTopP.vio
-Props/C13.vos Props/C13.vok Props/C13.required_vos: Props/C13.v Spec/MsgWriterS.vos Base/ListX.vos Model/MsgWriter.vos Proofs/MsgWriterP.vos Proofs/MsgWriterScanP.vos Proofs/MsgWriterNameP.vos Proofs/MsgWriterTabP.vos Proofs/MsgWriterTopP.vos
 Props/C14.vo Props/C14.glob Props/C14.v.beautified Props/C14.required_vo: Props/C14.v Base/ListX.vo Model/NameWire.vo Spec/NameWireS.vo Spec/NameRepr.vo Proofs/NameWireP.vo Proofs/NameWireSP.vo
 Props/C14.vio: Props/C14.v Base/ListX.vio Model/NameWire.vio Spec/NameWireS.vio Spec/NameRepr.vio Proofs/NameWireP.vio Proofs/NameWireSP.vio
 Props/C14.vos Props/C14.vok Props/C14.required_vos: Props/C14.v Base/ListX.vos Model/NameWire.vos Spec/NameWireS.vos Spec/NameRepr.vos Proofs/NameWireP.vos Proofs/NameWireSP.vos
-Spec/MsgWriterS.vo Spec/MsgWriterS.glob Spec/MsgWriterS.v.beautified Spec/MsgWriterS.required_vo: Spec/MsgWriterS.v Base/Res.vo Base/Octets.vo Spec/NameWireS.vo Model/MsgWriter.vo
-Spec/MsgWriterS.vio: Spec/MsgWriterS.v Base/Res.vio Base/Octets.vio Spec/NameWireS.vio Model/MsgWriter.vio
-Spec/MsgWriterS.vos Spec/MsgWriterS.vok Spec/MsgWriterS.required_vos: Spec/MsgWriterS.v Base/Res.vos Base/Octets.vos Spec/NameWireS.vos Model/MsgWriter.vos
 Spec/NameRepr.vo Spec/NameRepr.glob Spec/NameRepr.v.beautified Spec/NameRepr.required_vo: Spec/NameRepr.v Model/NameWire.vo Spec/NameWireS.vo
 Spec/NameRepr.vio: Spec/NameRepr.v Model/NameWire.vio Spec/NameWireS.vio
 Spec/NameRepr.vos Spec/NameRepr.vok Spec/NameRepr.required_vos: Spec/NameRepr.v Model/NameWire.vos Spec/NameWireS.vos
